@@ -36,6 +36,24 @@ def vpn_key(r, withdraw=False):
     return json.dumps({k: d[k] for k in ('rd', 'prefix')}, sort_keys=True)
 
 
+class _Counted(set):
+    """set of changed families that also counts how many times each was added (= route-level changes)"""
+
+    def __init__(self):
+        set.__init__(self)
+        self.n = {}
+
+    def add(self, f):
+        self.n[f] = self.n.get(f, 0) + 1
+        set.add(self, f)
+
+    def __ior__(self, other):
+        for f, c in getattr(other, 'n', {}).items():
+            self.n[f] = self.n.get(f, 0) + c
+        set.update(self, other)
+        return self
+
+
 class Model(object):
     def __init__(self, rib=True):
         self.rib = rib          # [bgp] rib = false: no IPv4 table is kept, so nothing about IPv4 ever changes
@@ -45,8 +63,9 @@ class Model(object):
         self.t = {'ipv4': {}, 'flowspec': {}, 'mpls_vpn': {}}
 
     def apply(self, op):
-        """returns set of families whose table changed"""
-        changed = set()
+        """returns set of families whose table changed; self.nchg counts the route-level changes per family"""
+        changed = _Counted()
+        self.nchg = changed.n
         k = op['kind']
         if k == 'ipv4' and not self.rib:
             return changed
@@ -328,6 +347,10 @@ class Runner(object):
             self.stats['max_step'] = max(self.stats['max_step'], d)
             if d < 0:
                 self.bad('version-decreased', feats + ['counter:' + f], '%s version went from %d to %d' % (f, self.ver[f], ver[f]), seq)
+            elif d > 0 and f in changed and d > getattr(changed, 'n', {}).get(f, d):
+                # every step of the counter answers to a change of the table: a message that changes k routes moves it by k at most
+                self.bad('version-moved-more-than-changes', feats + ['counter:' + f], 'after %s the %s %s version moved by %d, the table changed in %d route(s)' % (
+                    json.dumps(gen.norm(op))[:200], self.side, f, d, changed.n[f]), seq)
             elif (d > 0) != (f in changed):
                 self.bad('version-moved-without-change' if d > 0 else 'version-stood-still', feats + ['counter:' + f],
                          'after %s the %s %s version moved by %d although the model table %s' % (
